@@ -204,6 +204,30 @@ theorem C20_released_on_exit (pw : Owner.Pid → List Owner.Wid) (p : Owner.Pid)
   have := hE.todo [] htodo w hw hl.2
   simp at this
 
+/-- **Released on exit, for every liveness assignment.**  The same statement over explicit schedules:
+every entry of `sched` carries the capacity/liveness assignment `u : Wid → Bool` in force at that
+step, chosen adversarially and independently at every step — workers may die or revive before,
+during and after their acquisition, between the body and the `finally`, and between two `release`
+calls of the `finally`.  The finaliser `Op.finalize p` iterates over `pw p` (= `self._workers`, *all*
+workers of the pool, not the alive ones) and no step of `release` reads the oracle
+(`C20_release_ignores_liveness`), so a worker's death exempts it from nothing.  A `release_all` whose
+default is the *alive* workers violates this: `Witness.C20_alive_only_finalizer`. -/
+theorem C20_released_on_exit_every_liveness (pw : Owner.Pid → List Owner.Wid) (p : Owner.Pid) (t : Owner.Tid)
+    (c0 : Owner.Cfg) (h0 : Owner.Init c0)
+    (hsole : ∀ t', t' ≠ t → ∀ op ∈ (c0.T t').script, op.pool ≠ p)
+    (sched : List (Owner.Tid × (Owner.Wid → Bool))) :
+    let c := Owner.runSched pw c0 sched
+    (c.T t).cur = none → (c.T t).exited = some p → Owner.acquiredWorkers pw c.W p = [] := by
+  intro c hidle hex
+  exact C20_released_on_exit pw p t c0 c h0 hsole (Owner.Reach_runSched sched c0 .refl) hidle hex
+
+/-- No step of `acquire_by`, `release`, `is_available`, `is_locked` depends on the oracle: only the
+evaluation of `has_capacity and is_alive` inside `next_idle_worker` does. -/
+theorem C20_release_ignores_liveness (u u' : Owner.Wid → Bool) (W : Owner.Wid → Owner.Worker)
+    (t : Owner.Tid) (cl : Owner.Call) (h : cl.pc ≠ .uRd) :
+    Owner.mstep u W t cl = Owner.mstep u' W t cl :=
+  Owner.mstep_oracle_irrelevant u u' W t cl h
+
 /-- The marker used by `C20_released_on_exit` is set exactly when the `finally: release_all()` has
 released its last worker: the step that leaves the last `release` of a finaliser of `p` makes the
 thread idle with `exited = some p`. -/
